@@ -61,7 +61,7 @@ func (t *XMPPTransport) StartStream() (string, error) {
 		return "", NewConnError(err, false)
 	}
 
-	sessionID, err := stanza.InitStream(t.GetDecoder())
+	sessionID, err := stanza.InitStreamTCP(t.GetDecoder())
 	if err != nil {
 		t.Close()
 		return "", NewConnError(err, false)
